@@ -90,7 +90,7 @@ def run_unit(unit, progress):
         bad = False
         for pi, pol in enumerate(pols):
             how = HOWS[(i + pi) % 4]
-            rt, out, _e, _r = tl.execute(prog, how, pol, cs, MONITORS, rrt_exp=exp_rrt)
+            rt, out, _e, _r = tl.execute(prog, how, pol, cs, MONITORS, rrt_exp=exp_rrt, keep_deps=(i + pi) % 4 == 3)
             res["evaluations"] += 1
             tl.harvest(rt, c)
             if any(ev[0] == "flush_body" for ev in rt.log):
